@@ -1,4 +1,5 @@
 import ThriftVerif.Gen.DeepEqLemmas
+import ThriftVerif.Gen.DeepEqSymm
 import ThriftVerif.Generated.C18
 /-
   C18 — generated DeepEqual is structural equality (DESIGN.md §5.18).
@@ -54,6 +55,21 @@ theorem deep_equal_iff_fails_struct_key :
 theorem deep_equal_iff_fails_optional_binary :
     deepEqual facts Witness.P (.struct 3) Witness.unsetBin Witness.emptyBin = .ok true ∧
     valEq Witness.P (.struct 3) Witness.unsetBin Witness.emptyBin = false := by decide
+
+/-- the specification itself is symmetric on values a Go program can hold (`wf`: shapes follow the types, the keys
+of every map with base-typed keys are pairwise different) -/
+theorem spec_symmetric (P : Prog) (ty : Ty) (a b : GoVal) (ha : wf P ty a = true) (hb : wf P ty b = true) :
+    valEq P ty a b = valEq P ty b a :=
+  valEq_comm P a ty b ha hb
+
+/-- symmetric on the pairs of `deep_equal_iff_partial` (the hypothesis `aligned` is itself symmetric on well-formed values) -/
+theorem deep_equal_symm_partial (P : Prog) (ty : Ty) (a b : GoVal) (ha : wf P ty a = true) (hb : wf P ty b = true)
+    (h : aligned P ty a b = true) : deepEqual facts P ty a b = deepEqual facts P ty b a := by
+  rw [deep_equal_iff_partial P ty a b h, deep_equal_iff_partial P ty b a (aligned_comm P a ty b ha hb h),
+    spec_symmetric P ty a b ha hb]
+
+example : wf Witness.P (.struct 1) Witness.m10 = true ∧ wf Witness.P (.struct 1) Witness.m13 = true ∧
+    aligned Witness.P (.struct 1) Witness.m10 Witness.m13 = true := by decide
 
 /-- the asymmetric residue: `{1:0}.DeepEqual({2:5})` but not `{2:5}.DeepEqual({1:0})` -/
 theorem deep_equal_not_symmetric : facts.commaOk = false →
